@@ -2,7 +2,8 @@
    Every modelled API is a memoized traversal whose node function only appends to the output heap;
    for those the input heap is a prefix of the output heap, whatever the outcome (also on failure). *)
 From Fiddle Require Import PyBase PySlice Sig ArgStore PyCall Heap Traverse Build Build_stmt
-  Traverse_proofs Build_proofs Copy Tags Eq Transform C08Check Frame_proofs.
+  Traverse_proofs Build_proofs Copy Tags Eq Transform C08Check Frame_proofs
+  History Diff DiffBuild FrameDiff_proofs Doc.
 
 Theorem C17_frame : forall e h on_node,
   wf_b e h = true -> appends on_node ->
@@ -53,3 +54,23 @@ Example C17_nonvacuous :
   length (out (fst (mrun e h (copy_node e false) (RP 2)))) = 6%nat.
 Proof. vm_compute. repeat split. Qed.
 Print Assumptions C17_nonvacuous.
+
+(* Diffing: build_diff (given the alignment) only allocates the copies of new, unaligned objects; the
+   heap that holds old and new is a prefix of the heap that holds the diff's values. *)
+Theorem C17_diff_disciplined : forall e al, appends (db_node e al).
+Proof. exact db_appends. Qed.
+Print Assumptions C17_diff_disciplined.
+
+Theorem C17_build_diff_frame : forall e al h rold rnew o cs,
+  wf_b e h = true -> root_ok h rnew ->
+  build_changes e al h rold rnew = Some (o, cs) ->
+  firstn (length h) o = h /\ (length h <= length o)%nat.
+Proof. exact build_changes_frame. Qed.
+Print Assumptions C17_build_diff_frame.
+
+(* Serializing: the document is computed from a memoized copy, which leaves the input as it is. *)
+Theorem C17_serialize_frame : forall e h r s res,
+  wf_b e h = true -> root_ok h r -> mrun e h (copy_node e true) r = (s, res) ->
+  firstn (length h) (out s) = h /\ (length h <= length (out s))%nat.
+Proof. intros e h r s res Hwf Hroot Hrun. exact (frame_generic e h _ Hwf (copy_appends e true) r s res Hroot Hrun). Qed.
+Print Assumptions C17_serialize_frame.
